@@ -134,6 +134,28 @@ def name_map_findings(ce: ConstEval):
     for c in onm:
         if c not in seen:
             bad.append(f"obis_name_map has an extra code {c}")
+    # IEC 62056-61 value group C: quantity q (1..20) of phase k is coded q + 20*k (k = 1, 2, 3 for L1, L2, L3; q itself is the sum over the phases).
+    # Names must follow the code: the per-phase names of one quantity differ exactly in their _l<k> suffix, and carry the name of the sum when it is in the table.
+    import re as _re
+    by_cde = {}
+    for c, name in onm.items():
+        m_ = _re.fullmatch(r"(\d+)\.(\d+)\.(\d+)", c)
+        if m_:
+            by_cde[(int(m_.group(1)), int(m_.group(2)), int(m_.group(3)))] = name
+    for (cg, d, e_), name in sorted(by_cde.items()):
+        if 21 <= cg <= 80:
+            k, q = (cg - 1) // 20, (cg - 1) % 20 + 1
+            if not name.endswith(f"_l{k}"):
+                bad.append(f"OBIS {cg}.{d}.{e_} is a phase L{k} quantity (C = {q} + 20*{k}) but is named {name!r}")
+                continue
+            stem = name[: -len(f"_l{k}")]
+            total = by_cde.get((q, d, e_))
+            if total is not None and total != stem:
+                bad.append(f"OBIS {cg}.{d}.{e_} (phase L{k} of quantity {q}) is named {name!r} although quantity {q}.{d}.{e_} is {total!r}")
+            for k2 in (1, 2, 3):
+                other = by_cde.get((q + 20 * k2, d, e_))
+                if other is not None and k2 != k and other.endswith(f"_l{k2}") and other[: -len(f"_l{k2}")] != stem:
+                    bad.append(f"OBIS {cg}.{d}.{e_} and {q + 20 * k2}.{d}.{e_} are the same quantity on two phases but are named {name!r} and {other!r}")
     return bad, len(onm)
 
 
